@@ -209,7 +209,11 @@ class HierDictDocument(DictDocument):
                 retval = inst
 
             elif issubclass(cls, ComplexModelBase):
-                retval = self._doc_to_object(ctx, cls, inst, validator)
+                if inst is None:
+                    # a null member is None, not an empty message
+                    retval = None
+                else:
+                    retval = self._doc_to_object(ctx, cls, inst, validator)
 
             else:
                 if cls_attrs.empty_is_none and inst in (u'', b''):
